@@ -134,7 +134,12 @@ def _run(chk, tier, model_ok):
         cmds = viewcorr.pair_commands(r, case, 8 if quick else 24)
 
         def on_crash(cmd, rr, case=case):
-            crashes.append((case.name, cmd, viewcorr.crash_key(rr, cmd, case)))
+            key = viewcorr.crash_key(rr, cmd, case)
+            crashes.append((case.name, cmd, key))
+            chk.violation("input", {"module": case.text, "case": case.name, "command": cmd,
+                                    "observed": "%s: %s" % (rr.kind, (rr.err or "")[:1200]),
+                                    "expected": "an answer (the driver aborted: sanitizer report or EMBOSS_CHECK; "
+                                                "see also C04)"}, key=key)
         answers = viewcorr.run_surviving(case, cmds, on_crash, max_crashes=6)
         followups = []
         for c, a in zip(cmds, answers):
@@ -158,7 +163,7 @@ def _run(chk, tier, model_ok):
         per_case.append((case, cmds, answers))
         if len(chk.cov["samples"]) < 5 and cmds and answers[0]:
             chk.sample({"case": case.name, "command": cmds[0], "real": answers[0][:200]})
-    chk.extra["sanitizer_or_check_aborts_skipped (C04's business)"] = [list(x) for x in crashes[:10]]
+    chk.extra["sanitizer_or_check_aborts"] = [list(x) for x in crashes[:10]]
     if model_ok:
         todo = [(case, cmds) for case, cmds, _a in per_case if case.sexpr]
         results = viewcorr.model_answers(todo)
